@@ -252,6 +252,7 @@ pub struct WorkerArgs {
     pub thorough: bool,
     pub seed: u64,
     pub idx: u64,
+    pub nworkers: u64,
     pub cases: u32,
     pub dir: PathBuf,
     pub open_findings: BTreeSet<String>,
